@@ -38,6 +38,21 @@ CLAIMED = {
  "C11": dict(text="Bounded model checking with the OS generator replaced by an oracle (fresh symbolic array per call): for each randomised entry point the returned key/nonce/header/salt/seed equals this call's oracle output over its whole "
                   "length, public keys are the base-point image of the fresh secret, sealed boxes use the fresh ephemeral secret, password hashing feeds the fresh salt to Argon2 and to the encoder, and a second call draws a new array.",
              ref="DESIGN.md 5/C11", technique="Kani->CBMC bounded model checking with an RNG-oracle stub (randomness as a symbolic input); native replay by calling twice"),
+ "C02": dict(text="Bounded model checking, in the ideal-MAC model, of every opening entry point with symbolic key, nonce/state, ciphertext, tag and MAC output: Ok <=> all 16 presented tag bytes equal the MAC; the MAC covers exactly the received "
+                  "ciphertext (stream transcript in C03); key-derivation inputs for box / sealed box are exactly (pk, sk) / (epk, recipient pk); at literal (key, nonce) instances the one-time MAC key and the plaintext equal the harness's own XSalsa20 / HSalsa20.",
+             ref="DESIGN.md 5/C02, 3.2", technique="Kani->CBMC bounded model checking with an ideal-MAC stub and a differential XSalsa20 reference at literal keys; native replay against libsodium"),
+ "C03": dict(text="One inductive step from an arbitrary 44-byte stream state (all 2^32 counters) instead of histories: MAC transcript structure incl. libsodium's padding quirk, post-state function, rekey taken iff REKEY bit or counter wrap, verdict <=> tag == MAC, "
+                  "for push and pull with symbolic tag byte; keystream-value facts, the real rekey and pull(push(m)) at literal (key, nonce) instances incl. counters 0xfffffffe/0xffffffff against the harness's own ChaCha20; init functions; object API forwarding.",
+             ref="DESIGN.md 5/C03", technique="Kani->CBMC bounded model checking of one step from a symbolic state (A/B split: symbolic-key structural facts, literal-key keystream facts vs an RFC 8439 transcription); native replay against libsodium from the same state"),
+ "C05": dict(text="Bounded model checking of what dryoc feeds curve25519-dalek for all 2^256 scalars x 2^256 point encodings: the ladder's integer is clamp(n) itself, point and result forwarded unmodified; base-point variant; key-exchange BLAKE2b transcript, rx/tx mirroring "
+                  "and refusal of an all-zero shared secret. The ladder itself (symbolic field multiplication) is trusted base.",
+             ref="DESIGN.md 5/C05", technique="Kani->CBMC bounded model checking with contract stubs for the dalek ladder and a BLAKE2b-compress transcript; native replay against an RFC 7748 big-integer ladder and libsodium on twist/low-order points"),
+ "C06": dict(text="Bounded model checking of Ed25519 sign/verify plumbing with SHA-512 as ideal hash (logged transcript) and dalek operations as contract stubs: hash inputs (R, A, M, dom2 in pre-hashed mode), operand identities of S = k*a + r, determinism, combined layout; "
+                  "verification rejects EVERY S >= L (256-bit symbolic S), undecodable / small-order R and A, and accepts exactly when the final point comparison holds.",
+             ref="DESIGN.md 5/C06", technique="Kani->CBMC bounded model checking with ideal-hash and group-operation contract stubs; native replay by malleating an honest signature (S + L) with libsodium as oracle"),
+ "C16": dict(text="Bounded model checking of the serde Visitors (mock Deserializer driving visit_bytes and visit_seq with/without size hint, k symbolic elements for each literal k in 0..=2N) for stack, heap and locked containers, and of to_bytes/from_bytes/parts round trips "
+                  "and libsodium layouts of box, sealed box, secret box and signed message with symbolic bytes.",
+             ref="DESIGN.md 5/C16", technique="Kani->CBMC bounded model checking with a mock serde Deserializer (both visitor paths) and the ghost libc for heap/locked containers; native replay through serde_json and bincode"),
 }
 NA = {
  "C18": "Backends in question are assembly (sha2/asm), run-time-selected vendor intrinsics (dalek AVX2) and std::simd; none has a MIR/GOTO encoding Kani accepts and the two BLAKE2b compress variants are mutually exclusive cfg alternatives; see DESIGN.md section 6.",
